@@ -109,18 +109,27 @@ def gen_history(rng, length):
         else:
             hist.append(base)
         roll = rng.random()
-        if hist and roll < 0.30:
+        if hist and roll < 0.27:
             hist.append(dict(rng.choice(hist)))                         # exact repeat
-        elif hist and roll < 0.55:
+        elif hist and roll < 0.48:
             hist.append(lookalike(rng, rng.choice(hist)))              # one component differs
-        elif roll < 0.62:
+        elif roll < 0.54:
             hist.append(dict(base, src=NODE, seq=base['seq'] + 5))     # own source
-        elif roll < 0.70:
+        elif roll < 0.61:
             hist.append(dict(base, dest=NODE, seq=base['seq'] + 6))    # administrative endpoint
-        elif roll < 0.75:
+        elif roll < 0.65:
             hist.append(dict(base, seq=base['seq'] + 7, bad_crc=[rng.choice([0, 1])], crc=2))
-        elif roll < 0.82:
+        elif roll < 0.71:
             hist.append(dict(base, seq=base['seq'] + 8, blocks=[B.unknown_bib()], sec=13))
+        elif roll < 0.90:
+            # a CRC-damaged copy (still decodable) arrives before the first intact copy of the same identity
+            intact = dict(base, seq=base['seq'] + 9, crc=rng.choice([1, 2]))
+            hist.append(dict(intact, bad_crc=[rng.choice([0, 1])]))
+            if rng.random() < 0.3:
+                hist.append(dict(intact, bad_crc=[0, 1]))
+            hist.append(intact)
+            if rng.random() < 0.3:
+                hist.append(dict(intact))                               # and then a genuine repeat
     for spec in hist:
         if spec.get('bad_crc') and spec.get('crc', 2) == 0:
             spec['crc'] = 2
@@ -146,6 +155,7 @@ def oracle_c10(case, raw):
     bad = []
     accepted = set()       # identities received before (valid CRC, foreign source)
     acted = {}             # identity -> input index that caused delivery / forwarding / report
+    damaged = set()        # identities of which a CRC-damaged copy has arrived
     node = case['node_id']
     for (idx, (spec, obs)) in enumerate(zip(case['hist'], raw)):
         ident = B.spec_ident(spec)
@@ -157,6 +167,8 @@ def oracle_c10(case, raw):
         effects = bool(delivers or txs)
         where = 'input %d ident %r dest %s' % (idx, ident, dest)
         if spec.get('bad_crc'):
+            # a damaged copy leaves no trace: nothing now, and (checked at the first intact copy) not "seen"
+            damaged.add(ident)
             if effects:
                 bad.append(('C10/acted-on-bundle-with-invalid-crc', where))
             continue
@@ -201,7 +213,10 @@ def oracle_c10(case, raw):
             if fwds:
                 bad.append(('C10/route-says-deliver-but-bundle-forwarded', where))
             if spec.get('frag') is None and not sec_fail and len(delivers) != 1:
-                bad.append(('C10/deliver-route-or-admin-endpoint-not-delivered', where + ' action by first match/admin endpoint is deliver'))
+                sig = 'C10/deliver-route-or-admin-endpoint-not-delivered'
+                if ident in damaged and not effects:
+                    sig = 'C10/first-intact-copy-suppressed-by-earlier-crc-damaged-copy'
+                bad.append((sig, where + ' action by first match/admin endpoint is deliver'))
             if sec_fail and delivers:
                 bad.append(('C10/delivered-despite-security-failure', where))
         elif action == 'forward':
@@ -211,13 +226,54 @@ def oracle_c10(case, raw):
             want = B.expect_forward(case, spec)
             if want is True and not fwds:
                 sig = 'C10/forward-route-not-taken'
+                if ident in damaged and not effects:
+                    sig = 'C10/first-intact-copy-suppressed-by-earlier-crc-damaged-copy'
                 bad.append((sig, where + ': first matching route says forward, a TX route with CL exists, nothing handed to the CL'))
             if want is False and fwds:
                 bad.append(('C10/forwarded-without-usable-tx-route', where))
         else:
             if delivers or fwds:
                 bad.append(('C10/no-deliver-or-forward-route-but-acted', where + ' first-match action %r' % (action,)))
+            if (action == 'delete' and int(spec.get('flags', 0)) & B.FLAG_REQ_DELETION and report_routable(case, spec.get('report_to'))
+                    and not any((ent['bundle'].get('admin') or {}).get('status', {}).get('deleted', {}).get('asserted') for ent in reports)):
+                # the only observable trace of the delete action: the requested deletion report
+                sig = 'C10/delete-route-not-taken'
+                if ident in damaged and not effects:
+                    sig = 'C10/first-intact-copy-suppressed-by-earlier-crc-damaged-copy'
+                bad.append((sig, where + ': first matching route says delete, deletion report requested and routable, none sent'))
     return bad
+
+
+def report_routable(case, eid):
+    ''' A status report addressed to eid clearly reaches a CL: first matching TX route has the CL attached
+    and no MTU a report could exceed. '''
+    if not eid or eid == 'dtn:none':
+        return False
+    for item in case['tx_routes']:
+        if re.compile(item['pattern']).match(eid) is not None:
+            return item.get('cl_type', 'fake') == 'fake' and (item.get('mtu') is None or item['mtu'] >= B.REPORT_SIZE_BAND[1])
+    return False
+
+
+def derived_histories(case, first_diff):
+    ''' Smaller / probing histories derived from one whose model comparison broke: the inputs sharing the
+    identity of the first differing input, every damaged copy followed by an intact one, and single inputs. '''
+    out = []
+    hist = case['hist']
+
+    def mk(sub):
+        return dict(case, hist=[dict(item) for item in sub])
+    if first_diff is not None and first_diff < len(hist):
+        key = B.spec_ident(hist[first_diff])[:3]
+        out.append(mk([item for item in hist[:first_diff + 1] if B.spec_ident(item)[:3] == key]))
+        out.append(mk(hist[:first_diff + 1]))
+        out.append(mk([hist[first_diff]]))
+    for item in hist:
+        if item.get('bad_crc'):
+            intact = {key: val for (key, val) in item.items() if key != 'bad_crc'}
+            out.append(mk([item, intact]))
+            out.append(mk(list(hist) + [intact]))
+    return out[:24]
 
 
 # ----------------------------------------------------------------------------- directed cases / corpus
@@ -263,6 +319,12 @@ def directed_cases():
                       hist=[bd(dest='dtn://n1/a', seq=1, payload_hex=big), bd(dest='dtn://n1/a', seq=1, payload_hex=big),
                             bd(dest='dtn://n2/b', seq=2), bd(dest='dtn://n2/b', seq=3, flags=ALL_REQ | B.FLAG_NO_FRAGMENT),
                             bd(dest='dtn://n1/a', seq=4, time=0, payload_hex=big), bd(dest='dtn://n3/x/y', seq=5, time=0)]))
+    # CRC-damaged copies first, then the intact bundle: deliver, forward, delete routes and the admin endpoint
+    dmg = []
+    for (k, dst) in enumerate(['dtn://n2/', 'dtn://n2/b', 'dtn://n1/', NODE]):
+        intact = bd(dest=dst, seq=20 + k, time=6000)
+        dmg += [dict(intact, bad_crc=[0]), dict(intact, bad_crc=[1]), intact, dict(intact)]
+    cases.append(dict(node_id=NODE, rx_routes=rx, tx_routes=tx, now_ms=800000000000, hist=dmg))
     # regression (fixed in /repo): block numbers handed out by _do_fwd used to stick to the scapy class-level
     # overloaded_fields dict, so a later bundle carrying such a number could not be forwarded
     import cbor2
@@ -356,6 +418,7 @@ def main():
     chk.coverage['phase_seconds'] = phase
     pending_hits = {}
     disagree = []
+    searched = 0
     for (idx, ((tag, case), (canon, raw))) in enumerate(zip(cases, impl)):
         kinds = set()
         for (spec, obs) in zip(case['hist'], canon['inputs']):
@@ -386,6 +449,18 @@ def main():
         report_violations(chk, case, bad, pending_hits, tag)
         if model is not None and model[idx] != canon:
             disagree.append((idx, tag))
+            if not bad and searched < 8:
+                # section 4 of DESIGN: look for a concrete failing input among shrunk / probing forms
+                searched += 1
+                first = next((k for (k, (x, y)) in enumerate(zip(canon['inputs'], model[idx]['inputs'])) if x != y), None)
+                for sub in derived_histories(case, first):
+                    chk.count('derived_histories_searched')
+                    (_c2, raw2) = B.run_impl(sub)
+                    bad2 = oracle_c10(sub, raw2)
+                    if bad2:
+                        report_violations(chk, sub, bad2, pending_hits, tag + '/derived')
+                        bad = bad2
+                        break
             if not bad:
                 # correspondence broken on this case and the oracle is content: remember it
                 first = next((k for (k, (x, y)) in enumerate(zip(canon['inputs'], model[idx]['inputs'])) if x != y), None)
